@@ -57,6 +57,16 @@ def run(tier):
     corpus.validate_property(rep, "C13", done, need=("repopulated", "rounds_2plus"))
     from .. import drv_scripts
     drv_scripts.validate(rep, "C13", tier)          # (C) every phase boundary of every scripted run
+    # (D) the runs of the scheduling experiments (several workers, seeded delays that permute the completion order of the
+    #     optimisation tasks): cluster k of every state must still be the cluster of label k
+    from . import c14
+    sched = corpus.cached(f"sched_{tier}_{common.seed()}", lambda: c14.build(tier))
+    delayed = [t for hist in sched["histories"] for t in hist
+               if "driver_error" not in t and t["events"] and t["events"][-1]["ev"] == "return"
+               and t["hdr"]["cfg"].get("delay_seed") is not None]
+    if delayed:
+        corpus.validate_property(rep, "C13", delayed)
+        rep.regime("delayed_multi_worker_runs", len(delayed))
     rep.cov["distinct_nontrivial"] = len({(tuple(t["init"]), tuple(e["op"] for e in t["events"])) for t in traces
                                           if len(t["events"]) >= 3})
     rep.cov["rule"] = ("seeded random sequences (3..8 operations) of assign-labels / shallow copy / deep copy / the four real "
